@@ -244,6 +244,29 @@ int prop_hash(Run& run) {
                     for (size_t q = 0; q < k && i < cur.size(); ++q)
                         classes.back().push_back(cur[i++]);
                 }
+                // entries that repeat an id of an earlier entry next to ids of their own (a class
+                // registered by two modules, each with an alias of its own; the same registration
+                // listed twice): hash_initialize accepts any range of runtime classes
+                if (!cur.empty() && rng.chance(1, 4)) {
+                    int extra = rng.range(1, 3);
+                    for (int e = 0; e < extra && cur.size() < (size_t)maxn; ++e) {
+                        type_id known = cur[rng.below(cur.size())];
+                        std::vector<type_id> entry = {known};
+                        if (rng.chance(2, 3)) {
+                            type_id fresh = known ^ (type_id(1) << rng.range(3, 40)) ^ type_id(rng.range(1, 7));
+                            if (fresh != 0 && fresh != yorel::yomm2::invalid_type && std::find(cur.begin(), cur.end(), fresh) == cur.end()) {
+                                if (rng.chance(1, 2))
+                                    entry.push_back(fresh);
+                                else
+                                    entry.insert(entry.begin(), fresh);
+                                cur.push_back(fresh);
+                            }
+                        }
+                        classes.push_back(entry);
+                    }
+                    stale.erase(std::remove_if(stale.begin(), stale.end(), [&](type_id x) { return std::find(cur.begin(), cur.end(), x) != cur.end(); }), stale.end());
+                    run.count("steps.with-entries-sharing-an-id");
+                }
                 static const char* opn[] = {"fresh", "grow", "shrink", "disjoint", "empty", "same"};
                 hc.history += std::string(hc.history.empty() ? "" : ",") + "{\"op\":\"" + opn[op] + "\",\"flavour\":\"" + set_flavour_name(flavour) +
                               "\",\"n\":" + std::to_string(cur.size()) + ",\"budget\":" + std::to_string(budget) + "}";
